@@ -807,13 +807,23 @@ func (e *c09CEnv) judge(cs c09CCase, w *c09World, s *c09Sched, cl *Client, provs
 		// at least one witness returned the identical header during this call
 		confirmed := false
 		conflictingReply := false
+		// ... a witness, that is: a provider other than the one(s) that supplied this header in the primary's role during this call
+		// (a provider that confirms its own header confirms nothing)
+		suppliers := map[int]bool{}
+		for _, sv := range served[servedFrom:] {
+			if !sv.Async && sv.D == d {
+				suppliers[sv.Prov] = true
+			}
+		}
 		for _, sv := range served[servedFrom:] {
 			if !sv.Async || sv.D == nil {
 				continue
 			}
 			if sv.Height == d.Height || sv.Height == 0 {
-				if sv.D == d {
+				if sv.D == d && !suppliers[sv.Prov] {
 					confirmed = true
+				} else if sv.D == d {
+					res.Outcome += "(supplier-asked-to-confirm-its-own-header)"
 				} else if sv.D.Height == d.Height {
 					conflictingReply = true
 				}
